@@ -37,6 +37,12 @@ func sortedITV(us osm.Updates) bool {
 
 // annCase runs the implementation nruns times and records the distinct outcomes.
 func annCase(w *wire.Writer, in *annot.Input, nruns int, class string) (*wire.Case, []*annot.Outcome) {
+	return multiCase(w, in, nruns, class, func(int) *annot.Outcome { return in.Run() }, nil)
+}
+
+// multiCase: [in] is the input the Coq model receives; run(r) produces the r-th observation of the
+// implementation for that input; extra is added to the replay description.
+func multiCase(w *wire.Writer, in *annot.Input, nruns int, class string, run func(int) *annot.Outcome, extra map[string]interface{}) (*wire.Case, []*annot.Outcome) {
 	c := &wire.Case{Class: class}
 	c.Int(1)
 	in.Encode(c)
@@ -44,7 +50,7 @@ func annCase(w *wire.Writer, in *annot.Input, nruns int, class string) (*wire.Ca
 	var distinct []*annot.Outcome
 	seen := map[string]bool{}
 	for r := 0; r < nruns; r++ {
-		o := in.Run()
+		o := run(r)
 		k := o.Key()
 		if !seen[k] {
 			seen[k] = true
@@ -79,7 +85,11 @@ func annCase(w *wire.Writer, in *annot.Input, nruns int, class string) (*wire.Ca
 	case unsorted:
 		c.OracleFail = "an update list is not ordered by (index, timestamp, version)"
 	}
-	c.Desc = map[string]interface{}{"input": in.Desc(), "runs": nruns, "distinct_outcomes": descs}
+	desc := map[string]interface{}{"input": in.Desc(), "runs": nruns, "distinct_outcomes": descs}
+	for k, v := range extra {
+		desc[k] = v
+	}
+	c.Desc = desc
 	if oks > 0 {
 		w.Count("ann:ok")
 	} else {
@@ -110,11 +120,12 @@ func tieHistory(rng *rand.Rand, nchildren, nversions int, commit bool) *annot.In
 		in.Regime = "old"
 	}
 	mk := func(t time.Time) (time.Time, *time.Time) {
+		// the same instant, but not always the same representation (location)
 		if commit {
-			c := t
-			return t, &c
+			c := annot.Rezone(rng, t)
+			return annot.Rezone(rng, t), &c
 		}
-		return t, nil
+		return annot.Rezone(rng, t), nil
 	}
 	pts, pcom := mk(base.Add(time.Hour))
 	p := annot.Parent{Changeset: 1, Visible: true, Timestamp: pts, Committed: pcom}
@@ -157,7 +168,7 @@ func sortCase(rng *rand.Rand, n int) *wire.Case {
 			continue
 		}
 		seen[k] = true
-		us = append(us, osm.Update{Index: k[0], Timestamp: base.Add(time.Duration(k[1]) * time.Second), Version: k[2],
+		us = append(us, osm.Update{Index: k[0], Timestamp: annot.Rezone(rng, base.Add(time.Duration(k[1])*time.Second)), Version: k[2],
 			ChangesetID: osm.ChangesetID(rng.Intn(50)), Lat: float64(rng.Intn(90)), Lon: float64(rng.Intn(90)), Reverse: rng.Intn(4) == 0})
 	}
 	c.Len(len(us))
@@ -182,19 +193,110 @@ func sortCase(rng *rand.Rand, n int) *wire.Case {
 	return c
 }
 
+// bigHistory: one way with npar versions over a few nodes (child-location lists of npar entries).
+func bigHistory(npar int, idBase int) *annot.Input {
+	in := &annot.Input{Threshold: 30 * time.Minute, Regime: "commit"}
+	base := osm.CommitInfoStart.Add(300 * 24 * time.Hour)
+	var fids []osm.FeatureID
+	for i := 0; i < 3; i++ {
+		fid := osm.NodeID(idBase + i).FeatureID()
+		fids = append(fids, fid)
+		h := annot.Hist{FID: fid}
+		for v := 1; v <= 3; v++ {
+			t := base.Add(time.Duration(v-1) * 20 * time.Hour)
+			c := t
+			h.Versions = append(h.Versions, annot.Hver{Version: v, Changeset: int64(v), Timestamp: t, Committed: &c, Lat: float64(v), Lon: float64(i), Visible: true})
+		}
+		in.Hists = append(in.Hists, h)
+	}
+	for p := 0; p < npar; p++ {
+		t := base.Add(time.Hour + time.Duration(p)*time.Minute)
+		c := t
+		par := annot.Parent{Changeset: int64(100 + p), Visible: true, Timestamp: t, Committed: &c}
+		for _, f := range fids {
+			par.Refs = append(par.Refs, annot.Ref{FID: f})
+		}
+		in.Parents = append(in.Parents, par)
+	}
+	return in
+}
+
+// seqCase: "annotation is a function of its input" across calls in one process: the small input is
+// annotated before and after an unrelated call with many parent versions (another datasource, other
+// children); all observations of the small input must agree.
+func seqCase(w *wire.Writer, rng *rand.Rand, small, big *annot.Input, nruns int) *wire.Case {
+	bigStatus := -1
+	c, _ := multiCase(w, small, nruns, "sequence", func(r int) *annot.Outcome {
+		if r == nruns/2 {
+			bigStatus = big.Run().Status
+		}
+		return small.Run()
+	}, map[string]interface{}{"sequence": fmt.Sprintf("runs 0..%d of this input, then ONE unrelated call (%d parent versions, children %v.., status recorded below), then runs %d..%d of this input, all in one process",
+		nruns/2-1, len(big.Parents), big.Hists[0].FID, nruns/2, nruns-1), "unrelated_call": big.Desc()})
+	c.Desc.(map[string]interface{})["unrelated_call_status"] = bigStatus
+	return c
+}
+
+// reannCase: incremental use. The parents are annotated in full, then the SAME objects are
+// re-annotated with a ChildFilter for a batch of children that got a new version. The Coq model
+// receives the input of the second call (references as the first call left them).
+func reannCase(w *wire.Writer, rng *rand.Rand, in *annot.Input, nruns int) *wire.Case {
+	var ids []osm.FeatureID
+	seen := map[osm.FeatureID]bool{}
+	for _, p := range in.Parents {
+		for _, r := range p.Refs {
+			if !seen[r.FID] {
+				seen[r.FID] = true
+				ids = append(ids, r.FID)
+			}
+		}
+	}
+	if len(ids) == 0 {
+		return nil
+	}
+	var batch []osm.FeatureID
+	for _, f := range ids {
+		if rng.Intn(2) == 0 {
+			batch = append(batch, f)
+		}
+	}
+	if len(batch) == 0 {
+		batch = []osm.FeatureID{ids[rng.Intn(len(ids))]}
+	}
+	second, _ := in.TwoStep(batch)
+	if second == nil {
+		return nil
+	}
+	c, _ := multiCase(w, second, nruns, "reannotate", func(int) *annot.Outcome {
+		_, o := in.TwoStep(batch)
+		return o
+	}, map[string]interface{}{"sequence": "step 1: full annotation of the parents against the histories without the newest version of the batch children; step 2 (the input shown, references as step 1 left them, Updates non-empty): re-annotation of the same objects with ChildFilter = batch"})
+	w.Count("reannotate:cases")
+	return c
+}
+
 func main() {
 	a := wire.ParseArgs()
 	rng := wire.Rng(a.Seed)
 	w := wire.NewWriter("C12", a.Seed, a.Tier)
-	w.Rule = "ANN: an edit history annotated 8 (quick) / 24 (thorough) times on deep copies through annotate.Ways / annotate.Relations; classes: corpus (minimised past failures), ties (13-40 updates per parent, versions of one child in the same second, children repeated), random histories (all regimes, errors, options). SORT: osm.Updates.SortByIndex on 0-40 updates with equal (index, timestamp) groups. Non-trivial = at least one update produced (ANN) or >= 2 updates (SORT); distinct = distinct token streams."
-	nruns, nties, nrand, nsort := 8, 70, 110, 120
+	w.Rule = "ANN: an edit history annotated 8 (quick) / 24 (thorough) times on deep copies through annotate.Ways / annotate.Relations; classes: sequence (a small input annotated before and after an unrelated call with >= 64 parent versions in the same process), big, reannotate (full annotation, then filtered re-annotation of the same already annotated objects with ChildFilter; the model gets the second call's input), corpus (minimised past failures), ties (13-40 updates per parent, versions of one child in the same second, children repeated), random histories (all regimes, errors, options). SORT: osm.Updates.SortByIndex on 0-40 updates with equal (index, timestamp) groups. Equal instants are represented with different *time.Location values. Non-trivial = at least one update produced (ANN) or >= 2 updates (SORT); distinct = distinct token streams."
+	nruns, nties, nrand, nsort, nreann := 8, 70, 100, 120, 50
 	if a.Tier == "thorough" {
-		nruns, nties, nrand, nsort = 24, 1200, 2500, 2500
+		nruns, nties, nrand, nsort, nreann = 24, 1200, 2500, 2500, 1200
 	}
+	nreann = int(float64(nreann) * a.Scale)
 	nties = int(float64(nties) * a.Scale)
 	nrand = int(float64(nrand) * a.Scale)
 	nsort = int(float64(nsort) * a.Scale)
 
+	// sequences first, while the process is fresh: a small input before/after an unrelated big call
+	for k := 0; k < 2; k++ {
+		small := tieHistory(wire.Rng(int64(40+k)), 2, 4, k == 0)
+		big := bigHistory(64+8*k, 9000+10*k)
+		w.Add(seqCase(w, rng, small, big, nruns))
+		bc, _ := annCase(w, big, 2, "big")
+		w.Add(bc)
+	}
 	// corpus: the minimised failing inputs found on the pinned snapshot (see known_findings.d/C12.json)
 	crng := wire.Rng(12)
 	for _, shape := range [][2]int{{1, 16}, {2, 9}, {3, 7}} {
@@ -221,6 +323,20 @@ func main() {
 		in := annot.Generate(rng, annot.GenOpts{MaxChildren: 6, MaxVersions: 8, Clean: rng.Intn(2) == 0})
 		c, _ := annCase(w, in, nruns, "random")
 		w.Add(c)
+	}
+	for i, made := 0, 0; made < nreann && i < 20*nreann; i++ {
+		in := annot.Generate(rng, annot.GenOpts{MaxChildren: 5, MaxVersions: 8, Clean: true, Ties: i%3 == 0})
+		in.HasFilter, in.Filter = false, nil
+		for pi := range in.Parents {
+			for ri := range in.Parents[pi].Refs {
+				r := &in.Parents[pi].Refs[ri]
+				r.Version, r.Changeset, r.Lat, r.Lon = 0, 0, 0, 0
+			}
+		}
+		if c := reannCase(w, rng, in, nruns/2); c != nil {
+			w.Add(c)
+			made++
+		}
 	}
 	for i := 0; i < nsort; i++ {
 		n := rng.Intn(41)
